@@ -50,6 +50,12 @@ def main(argv: List[str]) -> int:
             tid += 1
             items[tid] = {'tid': tid, 'doc': doc, 'allow': tid % 3 == 0, 'want': 'links', 'fseed': None, 'pinned': {}, 'seed': pid, 'gen': 'GenProduct'}
     rep.notes['product_documents'] = nprod
+    # real documents (pv/corpus.py): the links each parsed database shows must be consistent with the content it shows
+    from . import corpus
+    for s in corpus.sources(rep):
+        tid += 1
+        items[tid] = {'tid': tid, 'doc': [], 'text': s['text'], 'allow': s['allow'], 'want': 'selflinks', 'fseed': None, 'pinned': {},
+                      'seed': s['origin'], 'gen': 'corpus'}
     res = docs.run_items(list(items.values()), rep, 'C05')
     doccheck.judge('C05', rep, res, items, lambda it: has_link(it['doc']))
     from . import census
